@@ -101,8 +101,8 @@ CLAIMS["C19"] = dict(
     ref="DESIGN.md §5 C19",
 )
 CLAIMS["C07"] = dict(
-    text="Structural layer only: the generic DFT-domain functions of reference/fft64/vec_znx_dft.rs (add/sub/copy with (step, offset) selection/add_scaled/zero, forward and inverse transforms with their size rules) and reference/fft64/svp.rs (prepare, scalar-vector products in all three forms) are instantiated with exact integer kernels on the f64 bit patterns (identity FFT) and decided limb-by-limb against their specification with frame assertions: every limb/size/selection/zero-fill rule around the products is the repository's real code.",
-    note="NARROW: IEEE-754 exactness of the FFT (symbolic floating-point products), the NTT120 family, vector-matrix products and bivariate convolution (block-interleaved layouts, n>=8) are not encoded; nothing is claimed about numeric exactness or magnitude domains.",
+    text="Structural layer only: the generic DFT-domain functions of reference/fft64/vec_znx_dft.rs (add/sub/copy with (step, offset) selection/add_scaled/zero, forward and inverse transforms with their size rules) reference/fft64/svp.rs (prepare, scalar-vector products in all three forms) and reference/fft64/vmp.rs (vmp_prepare into the block-interleaved layout followed by vmp_apply_dft_to_dft = sum over rows of row products, odd/even column tails, truncated outputs; n=8, concrete matrix, symbolic vector) are instantiated with exact integer kernels on the f64 bit patterns (identity FFT) and decided limb-by-limb against their specification with frame assertions: every limb/size/selection/zero-fill rule around the products is the repository's real code.",
+    note="NARROW: IEEE-754 exactness of the FFT (symbolic floating-point products), the NTT120 family and the bivariate convolution are not encoded; nothing is claimed about numeric exactness or magnitude domains.",
     technique=KANI + "; generic reference functions instantiated with substituted exact integer kernels",
     ref="DESIGN.md §5 C07",
 )
@@ -136,10 +136,10 @@ m = {
     "version": 1,
     "setup_cmd": "bin/setup",
     "hooks": {
-        "guard": "verif-hooks (cargo feature on poulpy-bin-fhe; off by default)",
-        "enable": "harness crates and smt/bdd_dump depend on /repo/poulpy-bin-fhe with features=[\"verif-hooks\"]",
+        "guard": "verif-hooks (cargo feature of the same name on poulpy-bin-fhe, poulpy-core and poulpy-ckks; off by default, not a default feature of any crate)",
+        "enable": "harness crates hk_core / hk_ckks / hk_binfhe and smt/bdd_dump depend on the /repo crates by path with features=[\"verif-hooks\"]; hk_hal and hk_avx need no hook",
         "baseline_off_cmd": "cd /repo && cargo test --workspace --no-fail-fast --offline",
-        "source_commits": ["87db623"],
+        "source_commits": ["87db623", "9db2020", "6ee2064", "a8383a3", "fbcca4f"],
         "add_only": True,
     },
     "engines": [
